@@ -3,6 +3,7 @@ package main
 import (
 	"context"
 	"fmt"
+	"io"
 	"math/rand"
 	"strings"
 	"sync"
@@ -48,6 +49,8 @@ type c10Case struct {
 	Order  []int    `json:"order"` // permutation of the request items
 	nItems int
 }
+
+var c10WriteErrs = []error{errInjectedWrite, fmt.Errorf("failed to write msg: %w", context.Canceled), io.ErrClosedPipe, fmt.Errorf("write: %w", context.DeadlineExceeded)}
 
 type c10Rec struct {
 	kind     string // unary | stream
@@ -290,7 +293,11 @@ func c10Run(r *Run, c c10Case) bool {
 				return false
 			}
 		}
-		sc.FailWrite(errInjectedWrite)
+		// the error value a dead transport reports varies: a websocket or HTTP connection with a context of
+		// its own says "context canceled" although nothing of the SERVER's has been cancelled
+		we := c10WriteErrs[(c.Pos+c.Unary+len(c.Modes)+c.Quick)%len(c10WriteErrs)]
+		r.Count("c10.write_error." + we.Error())
+		sc.FailWrite(we)
 	}
 
 	// 1. Serve returns
